@@ -7,8 +7,10 @@ compared byte for byte with the independent encoding of the submission, every pa
 served proof, and every certificate with an SCT is found by the client-computed leaf hash at a single index.
 """
 import json
+import os
 
 from props import ctfe_common
+from vlib import Infra
 
 
 def run(ctx, replay=None):
@@ -20,3 +22,27 @@ def run(ctx, replay=None):
         behs = ctfe_common.model_and_behaviours(ctx, 1500, 30000)
         path = ctx.write_ndjson("behaviours.ndjson", behs)
     ctx.go_test("cctfe", run="TestReplay$", env={"VERIF_BEHAVIOURS": path, "VERIF_PROP": "C06"}, timeout=3000)
+    if replay:
+        return
+    # concurrent clients under -race: backend call order = linearization order, validated by CTFETrace.tla
+    out, outdir, _ = ctx.go_test("cctfe", run="TestConcurrent$", race=True, timeout=3000, name="concurrent",
+                                 env={"VERIF_TRACES": ctx.pick(8, 80), "VERIF_ROUNDS": ctx.pick(6, 10)})
+    tr = os.path.join(outdir, "traces.ndjson")
+    if not os.path.exists(tr) or os.path.getsize(tr) == 0:
+        raise Infra("no concurrent trace recorded")
+    n = sum(1 for line in open(tr) if '"ev":"Reset"' in line)
+    r = ctx.tlc("ctfe", "CTFETrace", "CTFETrace.cfg", workers=1, env={"TRACE_FILE": tr}, count=False, check=False,
+                timeout=3000, label="trace")
+    stuck = r.records.get("STUCK", [])
+    if r.rc != 0 and not stuck and not r.violated:
+        raise Infra("trace validation failed to run (rc=%d)\n%s" % (r.rc, "\n".join(r.out.splitlines()[-25:])))
+    if stuck or r.violated:
+        lines = open(tr).read().splitlines()
+        at = stuck[0]["line"] if stuck else len(lines)
+        ev = stuck[0]["event"] if stuck else {}
+        ctx.violation("trace:%s:%s" % (ev.get("ev", r.violated), ev.get("status", "")),
+                      "a concurrent history of requests to the real instance is not a behaviour of CTFE.tla: the reply to "
+                      "%s does not follow from the state reached in backend order (or an invariant fails there)" % ev.get("ev", "?"),
+                      {"stuck": stuck, "violated": r.violated, "trace_window": lines[max(0, at - 25):at + 1]})
+    else:
+        ctx.traces += n
